@@ -589,6 +589,7 @@ func c06Spec(c *fw.Ctx, i int) gen.EsSpec {
 	}
 	sp := gen.EsSpec{VCodec: v, ACodec: a, NVideo: 60 + r.Intn(80), GopLen: 6 + r.Intn(12), AudioPer: 1 + r.Intn(3), MaxNals: 1 + r.Intn(6), BigNals: r.Intn(3) == 0,
 		InBandPS: r.Intn(2) == 0, AudSei: r.Intn(2) == 0, BFrames: r.Intn(2) == 0, TsStart: []uint32{0, 1000, 0xFFFFFF - 1000, 0x7fffff00}[r.Intn(4)], TsJump: r.Intn(4) == 0, AudioGap: r.Intn(4) == 0, LonePS: r.Intn(3) == 0, PsChange: r.Intn(3) == 0, PartialPS: r.Intn(3) == 0, AscChange: r.Intn(3) == 0, TinyAudio: r.Intn(2) == 0}
+	sp.PsChangeLone = sp.PsChange && r.Intn(2) == 0
 	if a == "aac" {
 		sp.AacIdx = r.Intn(13)
 		sp.AacChans = 1 + r.Intn(7)
@@ -624,7 +625,7 @@ func init() {
 			return 84
 		},
 		CaseTimeout: func(string) time.Duration { return 5 * time.Minute },
-		Rule: "one case = one whole-server run: a seeded elementary stream (AVC / HEVC classic / HEVC enhanced-RTMP / no video × AAC (13 sampling indices × 1–7 channels × object types 1–4) / Opus / G.711 / no audio; 1–6 tagged NAL units per frame sized 1 B…400 KiB around multiples of 184/1200/4096; in-band parameter sets (complete, partial, on their own, and one in-band change of the PPS), a second AAC sequence header with another configuration, one-byte Opus / G.711 frames, AUD, SEI, B-frame composition offsets, timestamp start near 0xFFFFFF / 2^31, a forward jump, sparse audio; metadata that names the audio codec id, with or without the source's sampling rate - 16 kHz for Opus) is published by the reference RTMP client; consumers: HTTP-TS from the start, RTSP over interleaved TCP and over UDP joining mid-stream, HLS (playlist + every segment fetched after the stream ends). " +
+		Rule: "one case = one whole-server run: a seeded elementary stream (AVC / HEVC classic / HEVC enhanced-RTMP / no video × AAC (13 sampling indices × 1–7 channels × object types 1–4) / Opus / G.711 / no audio; 1–6 tagged NAL units per frame sized 1 B…400 KiB around multiples of 184/1200/4096; in-band parameter sets (complete, partial, on their own, and one in-band change of the PPS, the new PPS arriving next to its SPS or on its own), a second AAC sequence header with another configuration, one-byte Opus / G.711 frames, AUD, SEI, B-frame composition offsets, timestamp start near 0xFFFFFF / 2^31, a forward jump, sparse audio; metadata that names the audio codec id, with or without the source's sampling rate - 16 kHz for Opus) is published by the reference RTMP client; consumers: HTTP-TS from the start, RTSP over interleaved TCP and over UDP joining mid-stream, HLS (playlist + every segment fetched after the stream ends). " +
 			"oracle: reference TS demuxer / ADTS / Annex-B splitters and RFC 6184/7798/3640 depacketisers recover frames which must equal the published ones per track (after dropping AUD, re-inserted parameter sets, H.265 SEI on TS), in order, exactly once, to the end; DTS/PTS−90·ts constant per track per consumer; RTP timestamp within one tick; ADTS header = ASC; SDP sprop/config = published parameter sets. cell = consumer × codec pair.",
 		Assumptions: []string{"reference demuxer / depacketisers (harness/ref)", "a UDP consumer with an RTP sequence gap is inconclusive (kernel drop cannot be told apart)", "G.711 is not carried in TS (audio PID absent is accepted)"},
 		MinCells: 8,
